@@ -96,6 +96,14 @@ def find_cause_pep484585_container_args_1(
     # ....................{ SATISFY ~ empty                }....................
     # If either...
     if (
+        # This container is *NOT* a collection (e.g., a generator satisfying a
+        # "collections.abc.Iterable[...]" hint) and thus neither sized nor
+        # safely reiterable, the items of this container are uncheckable and
+        # thus assumed to be valid *OR*...
+        #
+        # Note that this test *MUST* precede the len() call below, which raises
+        # a non-human-readable "TypeError" for unsized containers.
+        not isinstance(cause.pith, Collection) or
         # This container is empty, *ALL* items of this container (of which there
         # are none) are necessarily valid *OR*...
         #
